@@ -12,6 +12,7 @@ timer) the driver picks ONE of the enabled logical events
     B<i>-<j>  requests i..j arrive in the same loop iteration (burst)
     T         the earliest pending timer fires      (= the batch hold ends)
     R<k>      model call k returns                  (its gate is released)
+    x&y&z     several of the above land in the same loop iteration
 
 until none is enabled.  Then the loop is quiescent (all gates released, no
 timer, no ready handle) and every request must be done.  Verdicts are decided
@@ -27,8 +28,8 @@ LEVEL = "exploration"
 RULE = (
     "case = (index config: max_batch_size 1..5 x hold {0,>0} x cache {off, in_memory x md5/hash, filesystem x md5/hash} "
     "x use_batching, request list of <=12 requests of kind batch/search/list with unique or duplicate/empty texts, "
-    "schedule = sequence of logical events arrive/burst/timer/release chosen at loop idle points); quick enumerates all "
-    "base-3 decision scripts of length 5 for 3-4 batch requests x bs 1..3 x 5 caches x 2 text modes and adds seeded random "
+    "schedule = sequence of logical events arrive/burst/timer/release (optionally several in one loop iteration) chosen at loop "
+    "idle points); quick enumerates all base-3 decision scripts of length 5 (thorough: 6) for 3-4 batch requests x bs 1..3 x 5 caches x 2 text modes and adds seeded random "
     "schedules; non-trivial = >=2 requests overlapped (a model call with >=2 texts, >=2 model calls in flight, or an arrival "
     "while a batch was held or a model call was in flight); distinct = (config, requests, executed event trace)"
 )
@@ -42,6 +43,7 @@ ASSUMPTIONS = [
     "redis store not explored (no redis module / server offline); key generator 'hash' is Python hash() (PYTHONHASHSEED=0), there is no sha256 generator",
     "the in_memory store is re-created on every _get_embeddings call by the code under test, so it can only hit within one call (observed, not judged)",
     "search: the vector handed to the Annoy index is recorded by a delegating proxy and compared to f(query); when the query equals an indexed text the first hit must be that text (max_results = all items, exact for these sizes)",
+    "the code under test and the fake model use only loop-native waiting (futures, events, timers); a thread/executor hand-off would not be seen by the idle detector",
     "a request that spins without yielding (logical step budget) or a loop that does not become idle within 3000 iterations without any external event counts as 'does not complete'",
 ]
 SAMPLE_EVERY = 1201
@@ -57,10 +59,6 @@ POOL = ["a", "b", "", "a b", "A", " "]
 def f(text):
     h = hashlib.sha256(text.encode("utf-8")).digest()
     return [(b - 128) / 128.0 for b in h[:8]]
-
-
-def expected(kind, text):
-    return [f(t) for t in text] if kind == "list" else f(text)
 
 
 def _as_lists(r):
@@ -133,7 +131,7 @@ def _texts(rng, n, kinds, uniq, items):
 def cases(tier, seed):
     i = 0
     # --- systematic part: all base-3 decision scripts
-    L = 5 if tier == "quick" else 7
+    L = 5 if tier == "quick" else 6
     for uniq in (True, False):
         for bs in (1, 2, 3):
             for cache in CACHES:
@@ -153,7 +151,7 @@ def cases(tier, seed):
                             "instant": 0.0, "w": [1, 1, 1, 1], "uniq": uniq,
                         }
     # --- random part
-    nrand = 7000 if tier == "quick" else 110000
+    nrand = 7000 if tier == "quick" else 90000
     rng = random.Random("rnd-%s-%s" % (tier, seed))
     for _ in range(nrand):
         i += 1
@@ -176,7 +174,7 @@ def cases(tier, seed):
             "instant": rng.choice([0.0, 0.0, 0.0, 0.25, 1.0]),
             # weights of the event classes arrive / burst / timer / release
             "w": rng.choice([[1, 1, 1, 1], [4, 2, 1, 1], [1, 0, 3, 3], [2, 2, 0.3, 2], [2, 2, 2, 0.3], [1, 4, 1, 1]]),
-            "uniq": uniq,
+            "uniq": uniq, "cp": rng.choice([0, 0, 0.2, 0.5]),
         }
 
 
@@ -408,6 +406,9 @@ def run_case(case):
     base = {"nontrivial": False, "sample": sample, "cfg": case["cache"], "mode": case["mode"]}
     tasks = {}
     problem = None  # (mechanism, detail)
+    arr = {"idle": 0, "hold": 0, "model": 0, "hold+model": 0}
+    compound_steps = 0
+    build_calls = 0
     idx = None
     _steps_start()
     try:
@@ -454,7 +455,6 @@ def run_case(case):
         # ---- the controlled schedule
         nxt = 0
         pos = 0
-        arr = {"idle": 0, "hold": 0, "model": 0, "hold+model": 0}
         while problem is None:
             enabled = []
             if nxt < n:
@@ -468,19 +468,29 @@ def run_case(case):
                 enabled.append(("R", "R%d" % (g - build_calls), g))
             if not enabled:
                 break
-            c, label, payload = _pick(rng, case["script"], pos, enabled, case["w"])
+            step = [_pick(rng, case["script"], pos, enabled, case["w"])]
             pos += 1
-            trace.append(label)
-            if c in "AB":
-                hold, model = bool(drv.timers()), bool(ctl.pending_gates())
-                arr["hold+model" if hold and model else "hold" if hold else "model" if model else "idle"] += payload
-                for _ in range(payload):
-                    tasks[nxt] = loop.create_task(req(nxt))
-                    nxt += 1
-            elif c == "T":
-                loop._vt = max(loop._vt, min(h._when for h in drv.timers()))
-            else:
-                ctl.gates[payload].set_result(None)
+            # compound step: several logical events land in the SAME loop iteration
+            if case.get("cp", 0) and len(enabled) > 1 and rng.random() < case["cp"]:
+                for _ in range(rng.randint(1, 2)):
+                    taken = {e[1] for e in step}
+                    arrivals = any(e[0] in "AB" for e in step)
+                    rest = [e for e in enabled if e[1] not in taken and not (arrivals and e[0] in "AB")]
+                    if rest:
+                        step.append(rng.choice(rest))
+                compound_steps += 1 if len(step) > 1 else 0
+            trace.append("&".join(e[1] for e in step))
+            hold, model = bool(drv.timers()), bool(ctl.pending_gates())
+            for c, label, payload in step:
+                if c in "AB":
+                    arr["hold+model" if hold and model else "hold" if hold else "model" if model else "idle"] += payload
+                    for _ in range(payload):
+                        tasks[nxt] = loop.create_task(req(nxt))
+                        nxt += 1
+                elif c == "T":
+                    loop._vt = max(loop._vt, min(h._when for h in drv.timers()))
+                else:
+                    ctl.gates[payload].set_result(None)
             drv.settle()
             if _ST["blown"]:
                 problem = ("no-progress-spin", {"steps": _ST["count"]})
@@ -541,7 +551,7 @@ def run_case(case):
         "texts_served_from_cache": max(0, asked - sent) if case["cache"] != "off" else 0,
         "cases_with_cache_hit": int(case["cache"] != "off" and asked > sent),
         "arrivals_idle": arr["idle"], "arrivals_during_hold": arr["hold"], "arrivals_during_model": arr["model"],
-        "arrivals_during_hold_and_model": arr["hold+model"], "timer_events": trace.count("T"),
+        "arrivals_during_hold_and_model": arr["hold+model"], "timer_events": sum(x.split("&").count("T") for x in trace), "compound_steps": compound_steps,
         "max_steps": used, "max_loop_iterations": drv.iters, "sync_encode_calls": ctl.sync_calls,
         "shapes_modelcalls_requests": ["%d/%d" % (len(calls), n)],
         "schedules": [hashlib.sha1(sched.encode()).hexdigest()[:12]],
